@@ -73,9 +73,14 @@ func main() {
 	verif := flag.String("verif", "/verif", "verif dir (KNOWN_FINDINGS.jsonl)")
 	list := flag.Bool("list", false, "list implemented properties")
 	dump := flag.Bool("dump-funcs", false, "print the function list of -repo (reference for baseline_funcs.txt)")
+	dumpInv := flag.Bool("dump-inventory", false, "print the effect / cross-package call / state inventory of -repo (reference for baseline_inventory.txt)")
 	flag.Parse()
 	if *dump {
 		dumpFuncs(*repo)
+		return
+	}
+	if *dumpInv {
+		dumpInventory(*repo)
 		return
 	}
 	if *list {
@@ -115,6 +120,7 @@ func main() {
 		r.curConfig = "linux/amd64"
 		c.goos, c.arch = "linux", "amd64"
 		runGuarded(p, c, *prop)
+		runGuarded(&propDef{run: func(cc *Ctx) { checkInventory(cc, *prop) }}, c, *prop)
 		configs := []string{"linux/amd64"}
 		if *tier == "thorough" && p.matrix {
 			for _, cf := range thoroughConfigs {
@@ -147,6 +153,14 @@ func runGuarded(p *propDef, c *Ctx, prop string) {
 					// the check for this tree, reported as such rather than as a tool error
 					c.R.Check(prop+".undecided", "anchor resolved: "+strings.TrimPrefix(ie.msg, "UNRESOLVED anchor"), "-", false,
 						"a function, variable or package the rules of this property are anchored in no longer exists ("+ie.msg+"); the rules after it were not evaluated")
+					return
+				}
+				if !strings.HasPrefix(ie.msg, "load ") && !strings.HasPrefix(ie.msg, "no SSA package") && !strings.HasPrefix(ie.msg, "instance floor") {
+					// a rule met a shape it cannot decide (too many cases for the comparison
+					// evaluator, an ambiguous construction): undecided never passes silently, and it
+					// is the tree's verdict, not a tool failure
+					c.R.Check(prop+".undecided", "rule could not be decided: "+shortDesc(ie.msg), "-", false,
+						"a rule of this property could not be evaluated on this code ("+ie.msg+"); the rules after it were not evaluated")
 					return
 				}
 				panic(ie)
